@@ -1,0 +1,65 @@
+//go:build verif
+
+// Contracts for the deductive verification in /verif (comment-only; compiled code is unaffected).
+package standard
+
+// C18: the listing is exactly the accounts of the requested wallets that match the requested expression, provide a
+// public key and pass the permission check.
+
+//@ spec defined pre1(ap string) string = if prefixof("^", ap) then ap else "^" + ap
+//@ spec defined anchored(ap string) string = if suffixof("$", pre1(ap)) then pre1(ap) else pre1(ap) + "$"
+//@ spec wn(f any, p string) string = nameOf(walletFor(f, p))
+//@ spec defined pathOK(f any, p string) bool = wanOk(p) && wanW(p) != "" && (wanA(p) == "" || compiles(anchored(wanA(p)))) && walletFound(f, p) && accountsFound(f, wn(f, p))
+//@ spec defined nameMatch(p string, a any) bool = wanA(p) == "" || strmatch(anchored(wanA(p)), nameOf(a))
+//@ spec eligible(f any, p string, a any) bool = pathOK(f, p) && (exists n string :: hasAcc(f, wn(f, p), n) && a == accNamed(f, wn(f, p), n)) && nameMatch(p, a) && implements(a, "e2wtypes.AccountPublicKeyProvider")
+//@ spec akey(client string, f any, p string, a any) string = okey(client, wn(f, p), nameOf(a), ruler.ActionAccessAccount)
+
+//@ func (*Service).checkAccess
+//@ reveal okey
+//@ requires s != nil
+//@ modifies checkedset, deniedset
+//@ ensures [verdict] result == core.ResultSucceeded || result == core.ResultDenied
+//@ ensures [ok] result == core.ResultSucceeded ==> credentials != nil && (credentials.Client + "|" + accountName + "|" + action) in checkedset
+//@ ensures [denied] result != core.ResultSucceeded && credentials != nil ==> (credentials.Client + "|" + accountName + "|" + action) in deniedset
+//@ ensures [ok-ckey] result == core.ResultSucceeded ==> (forall w string, a string :: accountName == w + "/" + a ==> ckey(credentials.Client, w, a, action) in checkedset)
+//@ ensures [ok-key] result == core.ResultSucceeded ==> (forall w string, a string :: accountName == w + "/" + a ==> okey(credentials.Client, w, a, action) in checkedset)
+//@ ensures [denied-key] result != core.ResultSucceeded && credentials != nil ==> (forall w string, a string :: accountName == w + "/" + a ==> okey(credentials.Client, w, a, action) in deniedset)
+
+//@ func (*Service).ListAccounts
+//@ requires s != nil
+//@ requires [unlocked] !prelocked && (forall k [48]byte :: !held[k])
+//@ modifies checkedset, deniedset, tokroot, db, held, prelocked
+//@ ensures [released] !prelocked && (forall k [48]byte :: !held[k])
+//@ ensures [nonnil] forall k int :: 0 <= k && k < len(result1) ==> result1[k] != nil
+//@ ensures [nocred] credentials == nil ==> result0 == core.ResultFailed && len(result1) == 0
+//@ ensures [status] credentials != nil ==> result0 == core.ResultSucceeded
+//@ ensures [sound] credentials != nil ==> (forall k int :: 0 <= k && k < len(result1) ==> (exists i int :: 0 <= i && i < len(paths) && eligible(s.fetcher, paths[i], result1[k]) && akey(credentials.Client, s.fetcher, paths[i], result1[k]) in checkedset))
+//@ ensures [complete] credentials != nil && credentials.Client != "" ==> (forall i int, n string :: 0 <= i && i < len(paths) && pathOK(s.fetcher, paths[i]) && hasAcc(s.fetcher, wn(s.fetcher, paths[i]), n) && nameMatch(paths[i], accNamed(s.fetcher, wn(s.fetcher, paths[i]), n)) && implements(accNamed(s.fetcher, wn(s.fetcher, paths[i]), n), "e2wtypes.AccountPublicKeyProvider") ==> (exists k int :: 0 <= k && k < len(result1) && result1[k] == accNamed(s.fetcher, wn(s.fetcher, paths[i]), n)) || akey(credentials.Client, s.fetcher, paths[i], accNamed(s.fetcher, wn(s.fetcher, paths[i]), n)) in deniedset)
+// which loop invariants each obligation needs (the others are dropped from its context: fewer quantifiers to instantiate)
+//@ focus nonnil : range outer nonnil ctx
+//@ focus sound : range outer outer-path outer-map ctx sound locks
+//@ focus complete : range outer outer-path outer-map ctx complete complete-done complete-cur locks
+//@ focus complete-done : range outer outer-path outer-map ctx complete complete-done locks
+//@ focus complete-cur : range outer outer-path outer-map ctx complete-cur locks
+//@ hint-after checkAccess@1 [ck] result == core.ResultSucceeded ==> ckey(credentials.Client, nameOf(wallet), nameOf(walletAccount), ruler.ActionAccessAccount) in checkedset && akey(credentials.Client, s.fetcher, path, walletAccount) in checkedset
+//@ hint-after RunRules@1 [e1] pathOK(s.fetcher, path)
+//@ hint-after RunRules@1 [e2] exists n string :: hasAcc(s.fetcher, wn(s.fetcher, path), n) && walletAccount == accNamed(s.fetcher, wn(s.fetcher, path), n)
+//@ hint-after RunRules@1 [e3] nameMatch(path, walletAccount)
+//@ hint-after RunRules@1 [e4] implements(walletAccount, "e2wtypes.AccountPublicKeyProvider")
+//@ hint-after RunRules@1 [elig] eligible(s.fetcher, path, walletAccount) && akey(credentials.Client, s.fetcher, path, walletAccount) in checkedset
+//@ loop #1
+//@ invariant [range] 0 <= _n && _n <= len(paths) && accounts != nil && fresh(accounts)
+//@ invariant [nonnil] forall k int :: 0 <= k && k < len(accounts) ==> accounts[k] != nil
+//@ invariant [locks] !prelocked && (forall k [48]byte :: !held[k])
+//@ invariant [sound] forall k int :: 0 <= k && k < len(accounts) ==> (exists i int :: 0 <= i && i < _n && eligible(s.fetcher, paths[i], accounts[k]) && akey(credentials.Client, s.fetcher, paths[i], accounts[k]) in checkedset)
+//@ invariant [complete] credentials.Client != "" ==> (forall i int, n string :: 0 <= i && i < _n && pathOK(s.fetcher, paths[i]) && hasAcc(s.fetcher, wn(s.fetcher, paths[i]), n) && nameMatch(paths[i], accNamed(s.fetcher, wn(s.fetcher, paths[i]), n)) && implements(accNamed(s.fetcher, wn(s.fetcher, paths[i]), n), "e2wtypes.AccountPublicKeyProvider") ==> (exists k int :: 0 <= k && k < len(accounts) && accounts[k] == accNamed(s.fetcher, wn(s.fetcher, paths[i]), n)) || akey(credentials.Client, s.fetcher, paths[i], accNamed(s.fetcher, wn(s.fetcher, paths[i]), n)) in deniedset)
+//@ loop #2
+//@ invariant [outer] 0 <= _n1 && _n1 < len(paths) && accounts != nil && fresh(accounts)
+//@ invariant [nonnil] forall k int :: 0 <= k && k < len(accounts) ==> accounts[k] != nil
+//@ invariant [outer-path] path == paths[_n1]
+//@ invariant [outer-map] walletAccounts != nil
+//@ invariant [locks] !prelocked && (forall k [48]byte :: !held[k])
+//@ invariant [ctx] pathOK(s.fetcher, path) && wallet == walletFor(s.fetcher, path) && (forall n string :: (n in walletAccounts) <==> hasAcc(s.fetcher, wn(s.fetcher, path), n)) && (forall n string :: n in walletAccounts ==> walletAccounts[n] != nil && walletAccounts[n] == accNamed(s.fetcher, wn(s.fetcher, path), n)) && (accountRegex == nil <==> wanA(path) == "") && (accountRegex != nil ==> restr(accountRegex) == anchored(wanA(path)))
+//@ invariant [sound] forall k int :: 0 <= k && k < len(accounts) ==> (exists i int :: 0 <= i && i <= _n1 && eligible(s.fetcher, paths[i], accounts[k]) && akey(credentials.Client, s.fetcher, paths[i], accounts[k]) in checkedset)
+//@ invariant [complete-done] credentials.Client != "" ==> (forall i int, n string :: 0 <= i && i < _n1 && pathOK(s.fetcher, paths[i]) && hasAcc(s.fetcher, wn(s.fetcher, paths[i]), n) && nameMatch(paths[i], accNamed(s.fetcher, wn(s.fetcher, paths[i]), n)) && implements(accNamed(s.fetcher, wn(s.fetcher, paths[i]), n), "e2wtypes.AccountPublicKeyProvider") ==> (exists k int :: 0 <= k && k < len(accounts) && accounts[k] == accNamed(s.fetcher, wn(s.fetcher, paths[i]), n)) || akey(credentials.Client, s.fetcher, paths[i], accNamed(s.fetcher, wn(s.fetcher, paths[i]), n)) in deniedset)
+//@ invariant [complete-cur] credentials.Client != "" ==> (forall n string :: visited()[n] && nameMatch(path, accNamed(s.fetcher, wn(s.fetcher, path), n)) && implements(accNamed(s.fetcher, wn(s.fetcher, path), n), "e2wtypes.AccountPublicKeyProvider") ==> (exists k int :: 0 <= k && k < len(accounts) && accounts[k] == accNamed(s.fetcher, wn(s.fetcher, path), n)) || akey(credentials.Client, s.fetcher, path, accNamed(s.fetcher, wn(s.fetcher, path), n)) in deniedset)
